@@ -50,8 +50,8 @@ def _is_rounded_int(e):
 def run(ctx):
     prog = ctx.prog
     ce = ConstEval(prog)
-    ctx.clauses_decided = ["R1 one line per atom, in order", "R2 default atom line", "R3 rounding", "R4 precedence", "R5 defaults and run types"]
-    ctx.clauses_declined = ["content of user templates", "numeric formatting of coordinates", "R6 error contract: decided under C08"]
+    ctx.clauses_decided = ["R1 one line per atom, in order", "R2 default atom line", "R3 rounding", "R4 precedence", "R5 defaults and run types", "R6 error contract of write_input"]
+    ctx.clauses_declined = ["content of user templates", "numeric formatting of coordinates"]
     base = prog.func("iodata.inputs.common.write_input_base")
     fh, data, template, atom_line, user = base.posparams[:5]
 
@@ -294,3 +294,21 @@ def run(ctx):
             ctx.ok("R5", f"{short}: run_type = {want}", f"{wi.module.relpath}:{defaults.lineno}")
         else:
             ctx.violate("R5", f"{short}: run_type is `{src_of(v) if v is not None else None}`, expected `{want}`", wi, defaults, construct="run_type lookup")
+
+    # ------------------------------------------------------------------ R6
+    ctx.rule("R6", "unknown program -> FileFormatError; any rendering failure -> WriteInputError", "a raw exception (AttributeError of a template field, an error of a user callback) escapes write_input")
+    from ..excflow import ExcFlow, report_escapes
+    from ..astutil import raises_class as _rc, walk_stmts as _ws
+
+    api_wi = prog.func("iodata.api.write_input")
+    ef = ExcFlow(prog)
+    report_escapes(ctx, "R6", api_wi, ef.escapes(api_wi), {"FileFormatError", "WriteInputError"})
+    nimpl = sum(len(cs.callees) for cs in api_wi.calls if cs.registry_op == "write_input")
+    ctx.floor("R6", nimpl, 2, "input writers behind the funnel")
+    selm = prog.func("iodata.api._select_input_module")
+    rs = [s for s in _ws(selm.body) if isinstance(s, ast.Raise)]
+    last = selm.body[-1]
+    if rs and all(_rc(r) == "FileFormatError" for r in rs) and isinstance(last, (ast.Raise, ast.Return)):
+        ctx.ok("R6", f"_select_input_module: all {len(rs)} failure exits raise FileFormatError and the routine cannot fall off its end", selm.where)
+    else:
+        ctx.violate("R6", f"_select_input_module failure exits: {[_rc(r) for r in rs]} / falls off its end", selm, selm.node, construct="input selection failure exits")
